@@ -325,5 +325,36 @@ def run(ctx, res):
             else:
                 res.fail("T-SLOTS", inst, "T-SLOTS|%s|%s" % (kind, s), f.loc(),
                          "%s_open returns a device without checking that its %s slot is non-NULL; the wrapper calls it unconditionally" % (kind.lower(), s))
+    # storage_append forwards every non-empty region to the driver: a success
+    # return is reached through the driver's append slot, or through the edge
+    # on which the region is empty (beg >= end); the byte count handed over is
+    # end - beg
+    f = prog.func("storage_append")
+    res.touched(f)
+    oks = {(b.id, i) for b, i, st_ in f.all_stmts() if st_.get("k") == "ret" and isinstance(ir.strip(st_.get("e")), dict)
+           and ir.strip(st_["e"]).get("e") == "Device_Ok"}
+    pb, pe = f.params[1], f.params[2]
+
+    def calls_slot(q):
+        return any(c.get("k") == "call" and not c.get("fn") and "append" in ir.render(c.get("callee") or {}) for c in ir.calls_in(q))
+
+    def empty_edge(blk, sc):
+        c0 = ir.strip(blk.cond_node()) if blk.cond_node() is not None else None
+        if not (isinstance(c0, dict) and c0.get("k") == "bin" and c0.get("op") in ("<", ">", "!=")):
+            return False
+        l, r = ir.strip(c0["l"]), ir.strip(c0["r"])
+        ids = {x.get("id") for x in (l, r) if isinstance(x, dict) and x.get("k") == "var"}
+        if ids != {pb["id"], pe["id"]}:
+            return False
+        nonempty_when_true = (c0["op"] == "!=") or (c0["op"] == "<" and l.get("id") == pb["id"]) or (c0["op"] == ">" and l.get("id") == pe["id"])
+        return nonempty_when_true and sc.get("label") == "false"
+    ok, w = paths.all_paths_pass(f, "entry", oks, calls_slot, edge_ok=empty_edge) if oks else (False, None)
+    inst = "storage_append hands every non-empty region to the driver's append"
+    if ok:
+        res.oblige("HAL-FORWARD", inst, True, "success only through the append slot or the empty-region edge", f.loc())
+    else:
+        res.fail("HAL-FORWARD", inst, "HAL-FORWARD|storage_append", f.loc(),
+                 "storage_append can report success for a non-empty region without calling the driver's append: the frames are dropped silently", {"path_blocks": w})
+    res.require_min("HAL-FORWARD", 1)
     res.require_min("HAL-WRAPPER", 17)
     res.require_min("T-SLOTS", 14)
